@@ -3,6 +3,7 @@ import RPVerif.Lemmas.SchedHist
 import RPVerif.Lemmas.NodeList
 import RPVerif.Lemmas.SchedRun
 import RPVerif.Lemmas.JsrunSched
+import RPVerif.Lemmas.JsrunMem
 
 /-!
 # C01 — Pilot resources are never oversubscribed
@@ -366,6 +367,16 @@ theorem C01_jsrun_find (n : Sched.NodeSt) (nSlots rps cps gps lfs mem : Nat) (pa
     sl.length * lfs ≤ n.lfs.toNat ∧ sl.length * mem ≤ n.mem.toNat :=
   let ⟨_, _, a, b, c, d, e, f⟩ := findJ_spec n nSlots rps cps gps lfs mem part sl h
   ⟨a, b, c, d, e, f⟩
+
+open RPVerif.JsrunSched in
+/-- **node-local storage and memory are never overdrawn**: every placement takes from each node no more
+    lfs and memory than the node has left at that moment (`schedule_fits`), a release gives back what
+    the placement took (`markAll_lfs`) - so over every history the free amounts of every node stay ≥ 0,
+    i.e. what the tasks hold of a node never exceeds what the node has -/
+theorem C01_jsrun_lfs_mem (cfg : JCfg) (nodes : List Sched.NodeSt) (ops : List JOp)
+    (hidx : (nodes.map (·.index)).Nodup) (h0 : ∀ n ∈ nodes, 0 ≤ n.lfs ∧ 0 ≤ n.mem) :
+    ∀ n ∈ (jrun cfg { nodes := nodes } ops).nodes, 0 ≤ n.lfs ∧ 0 ≤ n.mem :=
+  jrun_nonneg cfg _ ops (init_inv nodes hidx) h0
 
 /-- tests: 5 ranks of half a GPU are cut into one set of 5 ranks owning 3 GPUs; 4 ranks of a quarter GPU
     into one set owning one GPU; and a two-node history in which the second task cannot take what the
